@@ -111,6 +111,33 @@ def proj_bind(p, v, env):
         env.setdefault(i, T.sym(nm))
 
 
+def while_let_as_for(n):
+    """`while let Some(P) = it.next() { B }` (HIR: `loop { if let Some(P) = it.next() { B } else { break } }`, `it` a local that B does
+    not touch, `next` = Iterator::next) is the desugaring of `for P in it { B }`: -> the equivalent `for` node (kept on the loop node,
+    so that its identity is stable across evaluators), else None."""
+    if "_as_for" in n:
+        return n["_as_for"]
+    out = None
+    b = H.peel(n.get("body") or {}, refs=False)
+    if n.get("k") == "loop" and n.get("src") == "While" and b.get("k") == "if" and "else" in b:
+        c = H.peel(b["cond"], refs=False)
+        el = H.peel(b["else"], refs=False)
+        if el.get("k") == "block" and len(el["stmts"]) == 1 and "tail" not in el:
+            el = H.peel(el["stmts"][0], refs=False)
+        if c.get("k") == "letexpr" and el.get("k") == "break":
+            p = H.pat_peel(c["pat"])
+            v = H.pat_variant(p)
+            it = H.peel(c["init"], refs=False)
+            if v and v[1] == "Some" and p.get("k") == "ptuplestruct" and len(p["pats"]) == 1 and it.get("k") == "mcall" and it["name"] == "next" \
+                    and not it["args"] and ((it.get("callee") or {}).get("path") or "").endswith("iter::traits::iterator::Iterator::next"):
+                loc = H.local_of(it["recv"])
+                if loc and not H.mentions_local(b["then"], loc[0]):
+                    out = {"k": "for", "pat": p["pats"][0], "iter": it["recv"], "iter_ty": (it.get("callee") or {}).get("self_ty"),
+                           "body": b["then"], "sp": n.get("sp"), "src": "while-let", "ty": "()"}
+    n["_as_for"] = out
+    return out
+
+
 NEG = {"==": "!=", "!=": "==", "<": ">=", ">=": "<", ">": "<=", "<=": ">"}
 SWAP = {"==": "==", "!=": "!=", "<": ">", ">": "<", "<=": ">=", ">=": "<="}
 
@@ -256,6 +283,10 @@ class PathEval(T.Evaluator):
             if T.is_sym(r):
                 return r
             return T.V("Ok", ("t", [])) if n["name"] == "try_for_each" else ("t", [])
+        if k == "loop":
+            pseudo = while_let_as_for(n)
+            if pseudo is not None:
+                n, k = pseudo, "for"
         if k in ("for", "loop"):
             if self.for_hook is not None:
                 r = self.for_hook(self, n, env)
